@@ -479,6 +479,34 @@ func (c *compiler) compile(tok *token) []instruction {
 		c.FuncName = tmp
 
 	case "=":
+		// the operands of index and field targets are evaluated before the right-hand side, left to right;
+		// where that order can be observed (several targets, or a call among the operands) they are kept in
+		// hidden slots until the stores
+		targets := tok.Tokens[0].Tokens
+		items, keys := make([][]instruction, len(targets)), make([][]instruction, len(targets))
+		for n, arg := range targets {
+			if arg.Symbol != "index" && arg.Symbol != "." {
+				continue
+			}
+			const indexItem, indexKey = 0, 1
+			items[n] = c.compile(arg.Tokens[indexItem])
+			if arg.Symbol == "index" {
+				keys[n] = c.compile(arg.Tokens[indexKey])
+			}
+			if len(targets) == 1 && !hasCall(arg.Tokens[indexItem]) && !(arg.Symbol == "index" && hasCall(arg.Tokens[indexKey])) {
+				continue
+			}
+			hi := c.Locals.Index(arg.Pos.String() + "#item")
+			res = append(res, items[n]...)
+			res = append(res, instruction{Code: codeLocalSet, A: reg(hi), B: 1})
+			items[n] = []instruction{{Code: codeLocalGet, A: reg(hi)}}
+			if arg.Symbol == "index" {
+				hk := c.Locals.Index(arg.Pos.String() + "#key")
+				res = append(res, keys[n]...)
+				res = append(res, instruction{Code: codeLocalSet, A: reg(hk), B: 1})
+				keys[n] = []instruction{{Code: codeLocalGet, A: reg(hk)}}
+			}
+		}
 		res = append(res, c.compile(tok.Tokens[1])...)
 		for i := 1; i <= len(tok.Tokens[0].Tokens); i++ {
 			arg := tok.Tokens[0].Tokens[len(tok.Tokens[0].Tokens)-i]
@@ -486,13 +514,12 @@ func (c *compiler) compile(tok *token) []instruction {
 				res = append(res, instruction{Code: codePop})
 				continue
 			} else if arg.Symbol == "index" {
-				const indexItem, indexKey = 0, 1
-				res = append(res, c.compile(arg.Tokens[indexItem])...)
-				res = append(res, c.compile(arg.Tokens[indexKey])...)
+				res = append(res, items[len(targets)-i]...)
+				res = append(res, keys[len(targets)-i]...)
 				res = append(res, instruction{Code: codeSet})
 			} else if arg.Symbol == "." {
-				const indexItem, indexKey = 0, 1
-				res = append(res, c.compile(arg.Tokens[indexItem])...)
+				const indexKey = 1
+				res = append(res, items[len(targets)-i]...)
 				res = append(res, instruction{Code: codeSetAttr, A: reg(c.Globals.Index(arg.Tokens[indexKey].Text))})
 			} else {
 				code := codeGlobalSet
